@@ -21,3 +21,6 @@ func (s *Service) VerifTokens() *auth.TokenManager { return s.tokens }
 
 // VerifAcceptRTSP hands a connection to the RTSP accept handler of the service.
 func (s *Service) VerifAcceptRTSP(c net.Conn) { s.rtsp.OnAccept(c) }
+
+// VerifResetTokens replaces the token manager by an empty one (a fresh world per case).
+func (s *Service) VerifResetTokens() { s.tokens = new(auth.TokenManager) }
